@@ -1134,6 +1134,19 @@ def lock_rules(A: Analysis, col: Collector, runs: list[RunFn], rule: str):
             col.fail(rule, "pydra.engine.job.Job", "lock-name-missing:" + "+".join(sorted(need - leaves)), f"the lock file name does not depend on {sorted(need - leaves)}: distinct identities (or cache roots) share one lock or none", A.loc(job.find_method(expr[5:]).node))
         else:
             col.ok(rule, f"lock name `{expr}` reads only {sorted(leaves)} (cache root + checksum), no uid/pid/time", A.loc(job.find_method(expr[5:]).node))
+    # the lock file must not live inside the job directory, which _populate_filesystem
+    # removes (rmtree) while the lock is held
+    lf = job.find_method("lockfile")
+    if lf is not None:
+        rets = [n for n in walk_own(lf.node) if isinstance(n, ast.Return) and n.value is not None]
+        for r in rets:
+            v = r.value
+            inside = isinstance(v, ast.BinOp) and isinstance(v.op, ast.Div) and norm(v.left) == "self.cache_dir"
+            joinpath = isinstance(v, ast.Call) and isinstance(v.func, ast.Attribute) and v.func.attr == "joinpath" and norm(v.func.value) == "self.cache_dir"
+            if inside or joinpath:
+                col.fail(rule, lf.qualname, "lock-file-inside-job-directory", f"the lock file `{norm(v, 50)}` lives inside the job directory, which _populate_filesystem deletes while the lock is held: a second submitter then acquires a fresh lock and runs the body again", A.loc(r))
+            else:
+                col.ok(rule, f"the lock file `{norm(v, 50)}` is a sibling of the job directory (not removed by rmtree(cache_dir))", A.loc(r))
     # (c) PydraFileLock
     enter = A.func("pydra.engine.job.PydraFileLock.__aenter__")
     col.scope(enter.qualname)
